@@ -336,14 +336,13 @@ def dblinkText : List (Bytes × Bytes) → Bool → Bytes
   | (k, v) :: rest, first =>
     (if first then bs "DBLINK      " else indent) ++ k ++ bs ": " ++ v ++ [10] ++ dblinkText rest false
 
-/-- one `REFERENCE` block; the pad `strings.Repeat(" ", 3-len(Itoa(n)))` panics when the number
-has more than three characters and `Info` is not empty -/
+/-- one `REFERENCE` block; the pad between number and info is `max 0 (3 - len(Itoa(n)))` blanks
+(761240c: no panic for numbers of four or more characters) -/
 def referenceText (r : Reference) : Out Bytes := do
   let num := itoaB r.number
-  let head ←
-    if r.info.isEmpty then pure (bs "REFERENCE   " ++ num)
-    else if num.length > 3 then throw .panic
-    else pure (bs "REFERENCE   " ++ num ++ sp (3 - num.length) ++ r.info)
+  let head :=
+    if r.info.isEmpty then bs "REFERENCE   " ++ num
+    else bs "REFERENCE   " ++ num ++ sp (3 - num.length) ++ r.info
   let sub (name : String) (v : Bytes) : Bytes :=
     if v.isEmpty then [] else bs name ++ addPrefix indent v ++ [10]
   pure (head ++ [10] ++ sub "  AUTHORS   " r.authors ++ sub "  CONSRTM   " r.group ++
